@@ -121,6 +121,12 @@ fn run_seq<T: Copy + ohsl::Number + ohsl::Signed + std::fmt::Debug + 'static>(ca
                 exact_event_x(case, ty, &u, &v, r.map(|x| x.map(|(q, r)| (coeffs(&q).into_iter().map(|c| back(c)).collect(), coeffs(&r).into_iter().map(|c| back(c)).collect()))), out,
                               &|e| { e["step"] = json!(k); e["role"] = json!(op); e["synced"] = json!(synced); });
             }
+            "isz" => {
+                // is_zero() of the object, judged against the current coefficients
+                let mut e = json!({"op": "is_zero", "kind": "exact", "ty": ty, "cid": geti(case, "cid"), "step": k, "u": jr(&rats(&mv)), "panic": false, "b": false});
+                match guarded(|| obj.is_zero()) { Ok(b) => e["b"] = json!(b), Err(_) => e["panic"] = json!(true) }
+                out.ev(e);
+            }
             o => { eprintln!("TOOL-ERROR unknown polydiv step {}", o); std::process::exit(2) }
         }
     }
@@ -128,7 +134,9 @@ fn run_seq<T: Copy + ohsl::Number + ohsl::Signed + std::fmt::Debug + 'static>(ca
 
 pub fn exec(case: &Value, out: &mut Out) {
     if case.get("steps").is_some() {
-        return match gets(case, "ty") { "rat" => run_seq::<Rat>(case, out, "rat", &|x| Rat::int(x), &|c| Some(c)), _ => run_seq::<f64>(case, out, "f64x", &|x| x as f64, &|c| f64_to_rat(c)) };
+        return match gets(case, "ty") { "rat" => run_seq::<Rat>(case, out, "rat", &|x| Rat::int(x), &|c| Some(c)),
+            "cxr" => run_seq::<Cmplx>(case, out, "cxr", &|x| Cmplx::new(x as f64, 0.0), &|c| if c.imag == 0.0 { f64_to_rat(c.real) } else { None }),
+            _ => run_seq::<f64>(case, out, "f64x", &|x| x as f64, &|c| f64_to_rat(c)) };
     }
     match gets(case, "ty") {
         "rat" => {
@@ -262,6 +270,7 @@ pub fn gen(tier: &str, seed: u64, out: &mut Out) {
     }
     gen_special(quick, &mut rng, out, &mut push);
     gen_sequences(quick, &mut rng, out, &mut push);
+    gen_zero_flips(quick, &mut rng, out, &mut push);
 }
 
 // ------------------------------------------------------------------ special exact values (leads of modulus 1, monomial divisors, 0 / 1 / -1 in every position)
@@ -401,4 +410,45 @@ fn gen_sequences(quick: bool, rng: &mut StdRng, out: &mut Out, push: &mut dyn Fn
         push(out, json!({"ty": if made % 2 == 0 { "rat" } else { "f64x" }, "u": u0, "w": w, "wb": wb, "v": [], "steps": steps}));
         made += 1;
     }
+}
+
+/// (s6) sequences that FLIP THE ZERO-NESS of one object through single writes, the object being used as divisor and as dividend:
+///  zero -> index-write a non-zero leading coefficient -> divide (must succeed) -> ... -> write the coefficients to zero one at a time, lowest
+///  first (every intermediate state is a valid divisor), dividing after each write -> all zero: Err, never panic -> non-zero again;
+///  non-zero -> zero -> non-zero; empty -> coeffs().push -> divide.  is_zero() is observed before and after each write.
+fn gen_zero_flips(quick: bool, rng: &mut StdRng, out: &mut Out, push: &mut dyn FnMut(&mut Out, Value)) {
+    let rats = |v: &[i64]| v.iter().map(|x| Rat::int(*x)).collect::<Vec<Rat>>();
+    let reps = if quick { 1 } else { 8 };
+    for ty in ["rat", "f64x", "cxr"] { for n in 1..=4usize { for start in ["zero", "nonzero", "empty"] { for wr in ["set", "cset"] { for rep in 0..reps {
+        'retry: for _ in 0..200 {
+            let w = { let lw = rng.gen_range(1..=2usize); let mut w = int_coeffs(rng, lw, 2); let l = w.len() - 1; w[l] = [1, -1][rng.gen_range(0..2)]; w };
+            let wb = int_coeffs(rng, 8, 2);
+            let mut cur: Vec<i64> = match start { "zero" => vec![0; n], "empty" => vec![], _ => { let mut v: Vec<i64> = (0..n).map(|_| [1i64, -1, 2, -2][rng.gen_range(0..4)]).collect(); v[n - 1] = [1, -1][rng.gen_range(0..2)]; v } };
+            let u0 = cur.clone();
+            let mut steps: Vec<Value> = vec![];
+            let mut small = true;
+            let mut obs = |steps: &mut Vec<Value>, cur: &Vec<i64>, small: &mut bool| {
+                for op in ["isz", "divby", "div", "isz", "divby"] { steps.push(json!({"op": op})); }
+                let lead_ok = cur.last().map(|x| *x != 0).unwrap_or(false);
+                if lead_ok && !division_is_small(&rats(&wb), &rats(cur)) { *small = false; }
+                if !division_is_small(&rats(cur), &rats(&w)) { *small = false; }
+            };
+            obs(&mut steps, &cur, &mut small);
+            if start == "empty" { for k in 0..n { let v = if k == n - 1 { [1i64, -1][rng.gen_range(0..2)] } else { rng.gen_range(-2..=2) };
+                // a pushed zero would leave a vanishing leading coefficient (outside the property): push non-zero values
+                let v = if v == 0 { 1 } else { v }; cur.push(v); steps.push(json!({"op": "push", "v": v})); obs(&mut steps, &cur, &mut small); } }
+            if start == "zero" {
+                // the leading coefficient first (zero -> valid divisor in one write), then the lower ones
+                for i in (0..n).rev() { let v = if i == n - 1 { [1i64, -1][rng.gen_range(0..2)] } else { [1i64, -1, 2][rng.gen_range(0..3)] }; cur[i] = v; steps.push(json!({"op": wr, "i": i, "v": v})); obs(&mut steps, &cur, &mut small); }
+            }
+            // to zero, one write at a time, lowest coefficient first
+            for i in 0..cur.len() { cur[i] = 0; steps.push(json!({"op": wr, "i": i, "v": 0})); obs(&mut steps, &cur, &mut small); }
+            // and back: non-zero leading coefficient through the OTHER write path
+            if !cur.is_empty() { let l = cur.len() - 1; let v = [1i64, -1][(rep + n) % 2]; cur[l] = v; steps.push(json!({"op": if wr == "set" { "cset" } else { "set" }, "i": l, "v": v})); obs(&mut steps, &cur, &mut small);
+                cur[l] = 0; steps.push(json!({"op": "set", "i": l, "v": 0})); obs(&mut steps, &cur, &mut small); }
+            if !small { continue 'retry; }
+            push(out, json!({"ty": ty, "u": u0, "w": w, "wb": wb, "v": [], "steps": steps, "cls": "zeroflip"}));
+            break;
+        }
+    } } } } }
 }
